@@ -205,6 +205,33 @@ def guard():
                            and n.func.attr == "wait"]
             if len(facts_waits) != 1:
                 problems.append(f"{rel}: expected exactly one Event.wait() (in writer()), found {len(facts_waits)}")
+    # the shared containers are constructed unbounded ("any number of concurrent writers / readers")
+    try:
+        vt = ast.parse(open(os.path.join(root, "dns", "versioned.py"), encoding="utf-8").read())
+        want = {"_versions": "deque", "_write_waiters": "deque", "_readers": "set"}
+        found = {}
+        for node in ast.walk(vt):
+            if isinstance(node, ast.FunctionDef) and node.name == "__init__":
+                for st in ast.walk(node):
+                    tgt = None
+                    if isinstance(st, ast.AnnAssign):
+                        tgt, val = st.target, st.value
+                    elif isinstance(st, ast.Assign) and len(st.targets) == 1:
+                        tgt, val = st.targets[0], st.value
+                    if isinstance(tgt, ast.Attribute) and tgt.attr in want and isinstance(tgt.value, ast.Name) \
+                            and tgt.value.id == "self":
+                        ok_ctor = isinstance(val, ast.Call) and not val.args and not val.keywords and (
+                            (isinstance(val.func, ast.Attribute) and val.func.attr == want[tgt.attr]) or
+                            (isinstance(val.func, ast.Name) and val.func.id == want[tgt.attr]))
+                        found[tgt.attr] = found.get(tgt.attr, True) and ok_ctor
+        for fld, ctor in want.items():
+            if fld not in found:
+                problems.append(f"dns/versioned.py: construction of self.{fld} not found in Zone.__init__")
+            elif not found[fld]:
+                problems.append(f"dns/versioned.py: self.{fld} is not constructed as an empty, unbounded {ctor}() "
+                                "(a bounded queue silently drops waiters / versions)")
+    except Exception as e:  # noqa
+        problems.append(f"dns/versioned.py: container construction check failed ({e})")
     facts["accesses_checked"] = total
     if total < 20:
         problems.append(f"only {total} accesses to the shared fields found: the guard no longer recognises the code")
